@@ -141,13 +141,13 @@ def run(ctx):
                     blocks[0].append(extra)
                 f = gen.AForest(blocks, parent)
                 cases.append({"id": cid, "mode": "brute", "forest": f.describe(), "G": G, "D": 1 + cid % 2,
-                              "kind": ["moderate", "smooth", "flat", "binom"][cid % 4]})
+                              "kind": ["moderate", "smooth", "flat", "binom", "near_ties"][cid % 5]})
                 cid += 1
     for i in range(200 if quick else 20000):
         n = int(rng.integers(1, 11))
         f = gen.random_forest(rng, n, max_children=8, shape=[None, "star", "bushy", "chain"][i % 4], n_tops=[None, 1, 4][i % 3])
         cases.append({"id": cid, "mode": "recursive", "forest": f.describe(), "G": [11, 21, 11, 101][i % 4] if n <= 7 else 11,
-                      "D": 1 + i % 3, "kind": ["moderate", "smooth", "flat", "peaked", "binom"][i % 5]})
+                      "D": 1 + i % 3, "kind": ["moderate", "smooth", "flat", "peaked", "binom", "near_ties"][i % 6]})
         cid += 1
     # fine grids (indices beyond 8 / 16-bit-free ranges of small integer types, the user may choose any grid size >= 11)
     big = []
@@ -168,6 +168,7 @@ def run(ctx):
     tasks = [{"seed": ctx.seed, "cases": [b]} for b in big]
     tasks += [{"seed": ctx.seed, "cases": cases[i::48]} for i in range(48)]
     ctx.map("checks.c10", "case_task", tasks, timeout=3000)
+    ctx.map("checks.c10", "case_task", tasks[::6][:10], timeout=3000, python_flags=("-O",))  # assertions off
     if ctx.counters.get("fine_grid_cases", 0) < 10:
         ctx.inconc("too few fine-grid cases")
     if ctx.counters.get("brute_force_cases", 0) < 40:
